@@ -323,6 +323,9 @@ def rule_n8(repo):
     searches = [t for t in cfg.test_nodes() if isinstance(t.ast, ast.Call) and call_name(t.ast) == 'any' and t.ast.args and
                 isinstance(t.ast.args[0], (ast.GeneratorExp, ast.ListComp)) and
                 any(is_name(gen.iter, 'bd_vars') for gen in t.ast.args[0].generators) and 'pat.args' in src(t.ast, 300)]
+    # ... or the same search written as a loop over bd_vars
+    searches += [n for n in cfg.nodes if n.kind == 'iter' and isinstance(n.ast, ast.For) and is_name(n.ast.iter, 'bd_vars') and
+                 any('pat.args' in src(x, 200) for st in n.ast.body for x in ast.walk(st) if isinstance(x, (ast.If, ast.Compare)))]
     need(searches, 'first_order_match.match: search of the target for extra bound variables not found')
     for b in binds:
         ok = cfg.path_avoiding(b, skip_nodes=searches) is None
